@@ -198,6 +198,55 @@ def run(tier, scratch, t0, replay=None):
                 res.distinct.add(K.sha([K.vstr(v), r.get("tree")]))
                 if len(res.samples) < 4:
                     res.sample({"version": K.vstr(v), "host": K.vstr(h), "file": det["file"], "path": "native" if r.get("native") else "portable"})
+    # ---- versions without an installed interpreter: the historical corpus.  No target can judge the written file, so only the
+    # weaker clause is checked there: what xdis writes, xdis reads back as the same tree (or the write is refused).
+    citems = []
+    cdir = scratch.sub("corpus-rw")
+    for p in K.corpus_files():
+        vtag = os.path.basename(os.path.dirname(p)).replace("bytecode_", "")
+        if "dropbox" in vtag or (quick and os.path.getsize(p) > 6000):
+            continue
+        try:
+            cv = tuple(int(x) for x in vtag.split("."))
+        except ValueError:
+            cv = None
+        if cv in K.available_interps():
+            continue
+        citems.append({"pyc": p, "new": os.path.join(cdir, "%s-%s.new.pyc" % (vtag, os.path.basename(p))), "vtag": vtag})
+    if quick:
+        citems = citems[::2]
+
+    def cjob(ci):
+        i, ch = ci
+        return K.run_agent(K.MAIN_HOST, "rewrite", {"items": ch}, cdir, "crw%d" % i, timeout=1800)
+
+    cchunks = list(K.chunks(citems, 25))
+    for (i, ch), (out, aerr, so, se) in zip(enumerate(cchunks), K.pmap(cjob, list(enumerate(cchunks)))):
+        if out is None:
+            res.inconclusive.append("corpus rewrite batch %d: %s" % (i, aerr))
+            continue
+        for it, r in zip(ch, out["items"]):
+            res.evaluations += 1
+            res.count("c13_corpus_rewrites")
+            tag = "corpus|v%s" % it["vtag"]
+            det = {"file": "corpus/%s/%s" % (it["vtag"], os.path.basename(it["pyc"]))}
+            if r.get("load_error"):
+                res.count("c13_corpus_file_not_loadable")
+                continue
+            if not r.get("written"):
+                refused += 1
+                res.count("c13_corpus_refused:" + str(r.get("refused", "?")).split("@")[0])
+                if not str(r.get("refused", "")).startswith(("TypeError", "ValueError", "NotImplementedError")):
+                    res.mismatches.append({"key": "C13|%s|write-raises:%s" % (tag, r.get("refused")), "detail": det})
+                continue
+            accepted += 1
+            if r.get("reread_error"):
+                res.mismatches.append({"key": "C13|%s|xdis-cannot-reread:%s" % (tag, r["reread_error"].split(":")[0]),
+                                       "detail": dict(det, error=r["reread_error"])})
+            elif r.get("reread_tree") != r.get("tree"):
+                fld = (r.get("reread_diff") or ["? ?"])[0].split(" ")
+                res.mismatches.append({"key": "C13|%s|xdis-rereads-different-content|%s" % (tag, fld[1] if len(fld) > 1 else "?"),
+                                       "detail": dict(det, diff=r.get("reread_diff"))})
     res.count("c13_accepted", accepted)
     res.count("c13_refused", refused)
     if accepted == 0:
